@@ -36,8 +36,8 @@ constexpr auto adjacent_difference(InputIt first, InputIt last, OutputIt destina
 template <typename InputIt, typename OutputIt>
 constexpr auto adjacent_difference(InputIt first, InputIt last, OutputIt destination) -> OutputIt
 {
-    using value_t = typename etl::iterator_traits<InputIt>::value_type;
-    return etl::adjacent_difference(first, last, destination, etl::minus<value_t>());
+    // transparent minus: the difference is not converted back to the input's value type before it is written
+    return etl::adjacent_difference(first, last, destination, etl::minus<>());
 }
 
 } // namespace etl
